@@ -44,6 +44,8 @@ type family struct {
 	base                 string // "" = none; "LONG" = a long base built from the same n
 	sp                   bool   // additionally exercise SearchParams
 	relaxed              bool   // parse with the relaxing parser options (lax host, accept-invalid, single-percent, collapse)
+	report               bool   // parse with validation-error reporting on
+	setter               string // the text is the argument of this setter, on a reporting-mode URL whose ValidationErrors() were read before
 }
 
 var c20Families = []family{
@@ -111,6 +113,39 @@ var c20Families = []family{
 	{name: "relaxed: path /a//", prefix: "http://h", frag: "/a//", relaxed: true},
 	{name: "relaxed: query %", prefix: "http://h/?", frag: "%", sp: true, relaxed: true},
 	{name: "relaxed: path invalid bytes", prefix: "http://h/", frag: "\xff/", relaxed: true},
+	// multi-byte, astral, U+FFFD and invalid bytes in every component, under the default parser (byte offset <-> code point bookkeeping)
+	{name: "domain invalid bytes", prefix: "http://", frag: "\xff", suffix: "/"},
+	{name: "domain U+FFFD", prefix: "http://", frag: "\ufffd", suffix: "/"},
+	{name: "domain astral", prefix: "http://", frag: "\U0001F308", suffix: "/"},
+	{name: "domain a then invalid bytes", prefix: "http://a", frag: "\xff", suffix: "/"},
+	{name: "opaque host invalid bytes", prefix: "a://", frag: "\xff", suffix: "/"},
+	{name: "opaque host astral", prefix: "a://", frag: "\U0001F308", suffix: "/"},
+	{name: "username invalid bytes", prefix: "http://", frag: "\xff", suffix: "@h/"},
+	{name: "path invalid bytes", prefix: "http://h/", frag: "\xff"},
+	{name: "path astral", prefix: "http://h/", frag: "\U0001F308"},
+	{name: "opaque path invalid bytes", prefix: "a:", frag: "\xff"},
+	{name: "query invalid bytes", prefix: "http://h/?", frag: "\xff", sp: true},
+	{name: "query astral names", prefix: "http://h/?", frag: "\U0001F308=1&", sp: true},
+	{name: "fragment invalid bytes", prefix: "http://h/#", frag: "\xff"},
+	{name: "é then host", prefix: "http://", frag: "é", suffix: "@\xff\xff\xff\xff/"},
+	// validation-error reporting on: inputs that raise one entry per code point
+	{name: "report: path errors", prefix: "http://h/", frag: "\"", report: true},
+	{name: "report: query errors", prefix: "http://h/?", frag: "% ", report: true},
+	{name: "report: backslashes", prefix: "http://h", frag: "\\", report: true},
+	{name: "report: credentials errors", prefix: "http://", frag: "^", suffix: "@h/", report: true},
+	// the setters, on a reporting-mode URL whose recorded entries were read before (state kept between calls)
+	{name: "setter search errors", frag: "\" ", setter: "search"},
+	{name: "setter search pairs", frag: "a=b&", setter: "search"},
+	{name: "setter hash errors", frag: "\"%", setter: "hash"},
+	{name: "setter pathname segments", frag: "/a", setter: "pathname"},
+	{name: "setter pathname errors", frag: "\\ ", setter: "pathname"},
+	{name: "setter pathname dot segments", frag: "/a/..", setter: "pathname"},
+	{name: "setter host", frag: "a.", setter: "host"},
+	{name: "setter hostname invalid bytes", frag: "\xff", setter: "hostname"},
+	{name: "setter username", frag: "é^", setter: "username"},
+	{name: "setter password", frag: ":@", setter: "password"},
+	{name: "setter port", frag: "1", setter: "port"},
+	{name: "setter protocol", frag: "a", suffix: ":", setter: "protocol"},
 	{name: "path /.", prefix: "http://h", frag: "/."},
 	{name: "path /%2e", prefix: "http://h", frag: "/%2e"},
 	{name: "path long segment", prefix: "http://h/", frag: "a"},
@@ -182,10 +217,29 @@ var c20sink int
 
 var c20Relaxed = url.NewParser(url.WithLaxHostParsing(), url.WithAcceptInvalidCodepoints(), url.WithPercentEncodeSinglePercentSign(), url.WithCollapseConsecutiveSlashes())
 
+var c20Reporting = url.NewParser(url.WithReportValidationErrors())
+
 func c20op(f family, input, base string) {
 	var u *url.Url
 	var err error
+	if f.setter != "" {
+		u, err = c20Reporting.Parse("https:\\\\u:p@h.example:8080/p q?a=b#f")
+		if err != nil || u == nil {
+			return
+		}
+		c20sink += len(u.ValidationErrors())
+		obs.ApplySetter(u, f.setter, input)
+		s := obs.Take(u)
+		c20sink += len(s.Href) + len(u.ValidationErrors())
+		obs.ApplySetter(u, f.setter, "x")
+		c20sink += len(u.Href(false))
+		return
+	}
 	switch {
+	case f.report && base != "":
+		u, err = c20Reporting.ParseRef(base, input)
+	case f.report:
+		u, err = c20Reporting.Parse(input)
 	case f.relaxed && base != "":
 		u, err = c20Relaxed.ParseRef(base, input)
 	case f.relaxed:
@@ -199,7 +253,7 @@ func c20op(f family, input, base string) {
 		return
 	}
 	s := obs.Take(u)
-	c20sink += len(s.Href) + len(s.Pathname)
+	c20sink += len(s.Href) + len(s.Pathname) + len(u.ValidationErrors())
 	sp := u.SearchParams()
 	c20sink += len(sp.String())
 	if f.sp {
